@@ -63,6 +63,7 @@ type lruStats struct {
 	recencyDecisive bool
 	overwrite       bool
 	rebuildCross    bool
+	cbSwitched      bool
 	evictions       int
 }
 
@@ -74,19 +75,22 @@ func checkLRUCase(c LRUCase) (string, lruStats) {
 	m := &model.LRU{Cap: c.Cap}
 	var cbLog []model.KV
 	keyBack := map[interface{}]string{}
-	if c.Callback {
-		cache.SetDelCallBackFn(func(k, v interface{}) {
-			name, ok := keyBack[k]
-			if !ok {
-				name = fmt.Sprintf("?%v", k)
-			}
-			iv, isInt := v.(int)
-			if v == nil && !isInt {
-				iv = nilMark
-			}
-			cbLog = append(cbLog, model.KV{K: name, V: iv})
-		})
+	logCb := func(k, v interface{}) {
+		name, ok := keyBack[k]
+		if !ok {
+			name = fmt.Sprintf("?%v", k)
+		}
+		iv, isInt := v.(int)
+		if v == nil && !isInt {
+			iv = nilMark
+		}
+		cbLog = append(cbLog, model.KV{K: name, V: iv})
 	}
+	cbOn := c.Callback
+	if c.Callback {
+		cache.SetDelCallBackFn(logCb)
+	}
+	var expLog []model.KV // the removals that happened while a callback was registered
 	removals := 0
 	used := map[string]bool{}
 	for i, op := range c.Ops {
@@ -133,7 +137,20 @@ func checkLRUCase(c LRUCase) (string, lruStats) {
 		case "D":
 			cache.Delete(gk)
 			m.Delete(op.Key)
+		case "C":
+			// the callback is switched off (nil, the state of a fresh cache) or on (again)
+			if op.Val == 0 {
+				cache.SetDelCallBackFn(nil)
+				cbOn = false
+			} else {
+				cache.SetDelCallBackFn(logCb)
+				cbOn = true
+			}
+			st.cbSwitched = true
 		case "N":
+		}
+		if cbOn {
+			expLog = append(expLog, m.Removed[before:]...)
 		}
 		removals += len(m.Removed) - before
 		if c.Cap >= 0 && removals > 2*c.Cap+1 {
@@ -147,13 +164,13 @@ func checkLRUCase(c LRUCase) (string, lruStats) {
 		if n > c.Cap {
 			return fmt.Sprintf("step %d: Len=%d exceeds capacity %d", i, n, c.Cap), st
 		}
-		if c.Callback {
-			if len(cbLog) != len(m.Removed) {
-				return fmt.Sprintf("step %d (%s %s): callback fired %d times in total, model removed %d entries (cb log %v, model %v)", i, op.Kind, op.Key, len(cbLog), len(m.Removed), cbLog, m.Removed), st
+		if c.Callback || st.cbSwitched {
+			if len(cbLog) != len(expLog) {
+				return fmt.Sprintf("step %d (%s %s): callback fired %d times in total, model removed %d entries while a callback was registered (cb log %v, model %v)", i, op.Kind, op.Key, len(cbLog), len(expLog), cbLog, expLog), st
 			}
-			for j := before; j < len(m.Removed); j++ {
-				if cbLog[j] != m.Removed[j] {
-					return fmt.Sprintf("step %d (%s %s): callback got %v, model removed %v", i, op.Kind, op.Key, cbLog[j], m.Removed[j]), st
+			for j := range expLog {
+				if cbLog[j] != expLog[j] {
+					return fmt.Sprintf("step %d (%s %s): callback got %v, model removed %v", i, op.Kind, op.Key, cbLog[j], expLog[j]), st
 				}
 			}
 		}
@@ -222,6 +239,9 @@ func (s lruStats) classify() {
 	}
 	if s.evictions > 0 {
 		ev.Class("has-eviction")
+	}
+	if s.cbSwitched {
+		ev.Class("callback-switched-off-or-on-in-mid-history")
 	}
 }
 
@@ -315,6 +335,10 @@ func genLRUCase(t *rapid.T, minLen int) LRUCase {
 			for j := 0; j < m; j++ {
 				c.Ops = append(c.Ops, LRUOp{Kind: "L", Key: ks[j%nk]})
 			}
+			continue
+		}
+		if rapid.IntRange(0, 29).Draw(t, "cbSwitch") == 13 {
+			c.Ops = append(c.Ops, LRUOp{Kind: "C", Val: rapid.IntRange(0, 1).Draw(t, "cbOnOff")})
 			continue
 		}
 		switch rapid.IntRange(0, 9).Draw(t, "op") {
